@@ -8,7 +8,7 @@ int g_verbose = 0;
 int g_max_per_key = 2;
 
 /* ---------------- hash set ---------------- */
-#define HS_CAP (1u << 23)
+#define HS_CAP (1u << 21)
 static uint64_t* hs_tab;
 static uint32_t hs_used;
 static uint32_t* hs_touched;   /* indices used, for cheap reset */
@@ -96,8 +96,14 @@ typedef struct { char* key; uint64_t n; } KeyCount;
 static KeyCount* keys;
 static size_t nkeys;
 
+const char* g_cs_suite = ""; long long g_cs_p[7];
 void violation(const char* prop, const char* key, const char* replay_case, const char* fmt, ...)
 {
+    char lazy[200];
+    if (replay_case && !replay_case[0]) {
+        snprintf(lazy, sizeof lazy, "%s:%lld:%lld:%lld:%lld:%lld:%lld:%llx", g_cs_suite, g_cs_p[0], g_cs_p[1], g_cs_p[2], g_cs_p[3], g_cs_p[4], g_cs_p[5], (unsigned long long)g_cs_p[6]);
+        replay_case = lazy;
+    }
     g_cnt.violations++;
     size_t i;
     char full[512];
